@@ -144,10 +144,12 @@ def _cases(draw):
         return {'fn': 'RT:' + fn, 'arg': arg, 'places': None, 'mode': 'call',
                 'spell': 'native'}
     if src != 'DEC':
-        spell = draw(st.sampled_from(['native', 'lower', 'number', 'Text']))
+        spell = draw(st.sampled_from(['native', 'lower', 'number', 'Text',
+                                      'floatnum']))
         if spell == 'lower':
             arg = arg.lower()
-        if spell == 'number' and not (arg.isdigit() and len(arg) <= 10):
+        if spell in ('number', 'floatnum') and not (
+                arg.isdigit() and len(arg) <= 10):
             spell = 'native'
     else:
         spell = draw(st.sampled_from(['native', 'float', 'Number', 'text']))
@@ -184,6 +186,8 @@ def _spelled(case):
         return str(arg)
     if spell == 'number':
         return int(arg)
+    if spell == 'floatnum':
+        return float(int(arg))      # the digits as a float: 110.0
     if spell == 'Text':
         return xl.Text(arg)
     return arg
@@ -199,6 +203,8 @@ def observe(fn, arg, places, mode, spell='native'):
         a = _lit(str(arg))
     elif spell == 'number':
         a = str(int(arg))
+    elif spell == 'floatnum':
+        a = repr(float(int(arg)))
     else:
         a = _lit(arg)
     f = '=%s(%s%s)' % (fn, a, '' if places is None else ',' + _lit(places))
